@@ -219,14 +219,37 @@ def judge(w, B1, T1, close_after):
     return bad
 
 
+class Hang(BaseException):
+    pass
+
+
+def _alarm(signum, frame_):
+    raise Hang()
+
+
+HANG_SECONDS = 20
+
+
 def run_mutant(phase, same_host, data, frag, close_after):
+    """one attack on a fresh world, under a watchdog: input that makes a handler loop for ever stops the node's event loop
+    just as an escaped exception does"""
+    import signal
     w = AttackWorld(phase, same_host)
+    old = signal.signal(signal.SIGALRM, _alarm)
+    signal.setitimer(signal.ITIMER_REAL, HANG_SECONDS)
     try:
         msgs, B1, T1 = base_messages(w, phase)
-        deliver(w, data, frag)
-        res = judge(w, B1, T1, close_after)
+        try:
+            deliver(w, data, frag)
+            res = judge(w, B1, T1, close_after)
+        except Hang:
+            signal.setitimer(signal.ITIMER_REAL, 0)
+            return [('event-loop-hangs', "the node's event handling did not return within %d s (it normally takes milliseconds): the "
+                     "event loop is stuck" % HANG_SECONDS)], False, False
         return res, w.X.alive, getattr(w, 'entered_by_attack', False)
     finally:
+        signal.setitimer(signal.ITIMER_REAL, 0)
+        signal.signal(signal.SIGALRM, old)
         w.close()
 
 
@@ -313,11 +336,17 @@ def mutant_families(ctx, phase):
     gd = msgs[names.index('getdata')][1]
     db = msgs[names.index('datablock')][1]
     inv = msgs[names.index('inventory')][1]
+    from skepticoin.datatypes import Block as _B
+    db_id = _B.deserialize(db[58:]).hash()
     for t in list(range(256)) + [0x0100, 0xffff]:
         tt = struct.pack(">H", t)
         yield 'datatype', 'get-data with data type %04x' % t, b''.join(hello) + frame(gd[:56] + tt + gd[58:]), False, F1
         yield 'datatype', 'data message with data type %04x' % t, b''.join(hello) + frame(db[:56] + tt + db[58:]), False, F1
         yield 'datatype', 'inventory item with data type %04x' % t, b''.join(hello) + frame(inv[:57] + tt + inv[59:]), False, F1
+        # ... the same inventory naming the transcript's own block, followed by that block (and once by the block twice)
+        inv2 = inv[:57] + tt + db_id + inv[91:]
+        yield 'datatype', 'inventory item with data type %04x naming the block that follows' % t, \
+            b''.join(hello) + frame(inv2) + frame(db), False, F1
     # 6. length fields
     for i in range(len(frames)):
         L = len(msgs[i][1])
